@@ -18,6 +18,7 @@ type Gen struct {
 	guarded        map[string][2]string // heap var of guarded field -> (struct type key, lock field name)
 	typeInvQ       map[string][]*Clause
 	abruptRely     map[string][]*Clause
+	scriptRely     map[string][]*Clause
 	abruptHavoc    map[string]bool
 	implOf         map[*ssa.Function]*Contract // concrete method -> interface contract it is checked against
 	typeInv        map[string]*ssa.Function    // typeKey -> invariant (heap dependent, re-assumed after unknown code)
@@ -260,7 +261,8 @@ func loadAll(repo string) (*Gen, error) {
 	resolveTF(cs.AbruptHavoc, g.abruptHavoc)
 	g.abruptRely = map[string][]*Clause{}
 	g.typeInvQ = map[string][]*Clause{}
-	for _, cl := range append(append([]*Clause{}, cs.TypeInvQ...), cs.AbruptRely...) {
+	g.scriptRely = map[string][]*Clause{}
+	for _, cl := range append(append(append([]*Clause{}, cs.TypeInvQ...), cs.AbruptRely...), cs.ScriptRely...) {
 		sp := g.pkgs[cl.Owner.PkgDir]
 		if sp == nil || cl.FnName == "" {
 			continue
@@ -275,6 +277,10 @@ func loadAll(repo string) (*Gen, error) {
 		var t types.Type = obj.Type()
 		if strings.HasPrefix(cl.ObsType, "*") {
 			t = types.NewPointer(t)
+		}
+		if cl.Kind == "scriptrely" {
+			g.scriptRely[typeKey(t)] = append(g.scriptRely[typeKey(t)], cl)
+			continue
 		}
 		if cl.Kind == "abruptrely" {
 			g.abruptRely[typeKey(t)] = append(g.abruptRely[typeKey(t)], cl)
